@@ -11,6 +11,7 @@ import (
 	"os"
 	"sort"
 	"strings"
+	"sync"
 
 	"golang.org/x/tools/go/callgraph"
 	"golang.org/x/tools/go/callgraph/cha"
@@ -36,6 +37,13 @@ type Program struct {
 	ssaProg *ssa.Program
 	ssaPkgs map[*types.Package]*ssa.Package
 	cg      *callgraph.Graph
+
+	// Canonicalised is the number of private identifiers (functions, methods, types, fields) that were renamed back to
+	// their canonical spelling in memory before the rules ran (0: the tree uses the canonical names)
+	Canonicalised int
+
+	aliasMu sync.Mutex
+	aliases map[string]*types.Func // canonical "rel.name" of a renamed unexported helper -> its stand-in (nil: none)
 }
 
 // Load loads ./... of dir. goarch may be "" (host) or e.g. "386".
@@ -44,6 +52,29 @@ func Load(dir, goarch string) (*Program, error) { return LoadOverlay(dir, goarch
 // LoadOverlay is Load with in-memory extra files (absolute path -> content); nothing is written to disk.
 // It is used to type-check the positive fixtures inside the real packages.
 func LoadOverlay(dir, goarch string, overlay map[string][]byte) (*Program, error) {
+	p, err := loadOnce(dir, goarch, overlay)
+	if err != nil {
+		return nil, err
+	}
+	// private names the rules speak of, renamed in the tree: give them their canonical spelling back in an overlay and
+	// load again (alias.go)
+	if plan := p.renamePlan(); len(plan) > 0 {
+		ov, err := p.renameOverlay(plan, overlay, os.ReadFile)
+		if err != nil {
+			return nil, fmt.Errorf("canonicalising overlay: %w", err)
+		}
+		q, err := loadOnce(dir, goarch, ov)
+		if err != nil {
+			// the renamed program does not type-check (a name clash the plan did not foresee): keep the tree as it is
+			return p, nil
+		}
+		q.Canonicalised = len(plan)
+		return q, nil
+	}
+	return p, nil
+}
+
+func loadOnce(dir, goarch string, overlay map[string][]byte) (*Program, error) {
 	env := append(os.Environ(), "GOFLAGS=-mod=mod", "GOPROXY=off", "GOSUMDB=off", "GOTOOLCHAIN=local", "GOWORK=off")
 	if goarch != "" {
 		env = append(env, "GOARCH="+goarch)
@@ -85,6 +116,7 @@ func LoadOverlay(dir, goarch string, overlay map[string][]byte) (*Program, error
 	if len(p.Pkgs) < MinPackages {
 		return nil, fmt.Errorf("coverage-loss: %d module packages loaded, expected >= %d", len(p.Pkgs), MinPackages)
 	}
+	p.resolveAllAliases()
 	return p, nil
 }
 
@@ -186,17 +218,26 @@ func (p *Program) FuncDecl(fn *types.Func) (*ast.FuncDecl, *packages.Package) {
 }
 
 // LookupFunc resolves a package-level function by (relative package, name).
-func (p *Program) LookupFunc(rel, name string) *types.Func {
+func (p *Program) LookupFunc(rel, name string) *types.Func { return p.lookupFunc(rel, name, 0) }
+
+func (p *Program) lookupFunc(rel, name string, depth int) *types.Func {
 	pkg := p.Pkg(rel)
 	if pkg == nil {
 		return nil
 	}
-	fn, _ := pkg.Types.Scope().Lookup(name).(*types.Func)
-	return fn
+	if fn, _ := pkg.Types.Scope().Lookup(name).(*types.Func); fn != nil {
+		return fn
+	}
+	// an unexported helper that was renamed: found through its callers and signature (alias.go)
+	return p.resolveAlias(rel, name, depth)
 }
 
 // LookupMethod resolves a method by (relative package, type name, method name).
 func (p *Program) LookupMethod(rel, typ, name string) *types.Func {
+	return p.lookupMethod(rel, typ, name, 0)
+}
+
+func (p *Program) lookupMethod(rel, typ, name string, depth int) *types.Func {
 	pkg := p.Pkg(rel)
 	if pkg == nil {
 		return nil
@@ -214,5 +255,6 @@ func (p *Program) LookupMethod(rel, typ, name string) *types.Func {
 			return m
 		}
 	}
-	return nil
+	// an unexported method that was renamed (alias.go)
+	return p.resolveAlias(rel, typ+"."+name, depth)
 }
